@@ -54,7 +54,9 @@ func acceptance(p gda.Parsed) string {
 func giantString(r *rng.R) string {
 	L := []int{65536, 100001, 131072, 200000, 200001, 200002, 262144, 400000}[r.Intn(8)]
 	sign := []string{"", "-", "+"}[r.Intn(3)]
-	switch r.Intn(4) {
+	switch r.Intn(5) {
+	case 4: // more significant digits than any Decimal can hold: must be rejected, not crash
+		return sign + gen.Digits(r, 1) + strings.Repeat("7", 200100+r.Intn(3000))
 	case 0: // zeros only
 		return sign + strings.Repeat("0", L)
 	case 1: // leading zeros, then a short number
